@@ -675,12 +675,28 @@ pub fn polygon_is_simple(pts: &[P]) -> bool {
     true
 }
 
+/// Square of the extent of the point set (larger side of its bounding box): the unit in which
+/// cross products and areas are judged, so that the predicates do not depend on the length unit.
+pub fn extent2(pts: &[P]) -> f64 {
+    let (mut x0, mut x1, mut y0, mut y1) = (f64::INFINITY, f64::NEG_INFINITY, f64::INFINITY, f64::NEG_INFINITY);
+    for p in pts {
+        let q = pf(*p);
+        x0 = x0.min(q[0]);
+        x1 = x1.max(q[0]);
+        y0 = y0.min(q[1]);
+        y1 = y1.max(q[1]);
+    }
+    let l = (x1 - x0).max(y1 - y0) / 4.0; // (the generators' polygons at scale 1 have extent about 4)
+    (l * l).max(f64::MIN_POSITIVE)
+}
+
 pub fn general_position(pts: &[P]) -> bool {
     let n = pts.len();
+    let u = extent2(pts);
     for i in 0..n {
         for j in i + 1..n {
             for k in j + 1..n {
-                if cross(pts[i], pts[j], pts[k]).abs() < 1e-6 {
+                if cross(pts[i], pts[j], pts[k]).abs() < 1e-6 * u {
                     return false;
                 }
             }
@@ -692,9 +708,10 @@ pub fn general_position(pts: &[P]) -> bool {
 pub fn strictly_convex(pts: &[P]) -> bool {
     let n = pts.len();
     let s = signed_area(pts) > 0.0;
+    let u = extent2(pts);
     (0..n).all(|i| {
         let c = cross(pts[i], pts[(i + 1) % n], pts[(i + 2) % n]);
-        c.abs() > 1e-6 && (c > 0.0) == s
+        c.abs() > 1e-6 * u && (c > 0.0) == s
     })
 }
 
@@ -807,7 +824,7 @@ pub fn check_triangulate(pre: &State, post: &State, op: &Op, res: &Result<Res, S
         }
         let a = signed_area(t);
         sum += a;
-        if (a > 0.0) != ccw || a.abs() < 1e-12 {
+        if (a > 0.0) != ccw || a.abs() < 1e-12 * extent2(&pts) {
             out.push(fnd("C13", "triangle-wrong-orientation", format!("{op:?}: triangle {:?} has signed area {a}, the polygon {area}", t.iter().map(|p| pf(*p)).collect::<Vec<_>>())));
         }
     }
